@@ -95,6 +95,13 @@ def catalogue(kind):
     F.append(("client-sends-defTextVector", '<defTextVector device="DEV0" name="TGT" state="Ok" perm="rw"><defText name="A">spoof</defText></defTextVector>', []))
     F.append(("client-sends-setTextVector", '<setTextVector device="DEV0" name="TGT" state="Alert"><oneText name="A">spoof</oneText></setTextVector>', []))
     F.append(("client-sends-delProperty", '<delProperty device="DEV0" name="TGT"/>', []))
+    # device-kind messages about the WHOLE device / every device from a client: other clients' settings and views of the
+    # router must not change either (the listener keeps getting what it asked for)
+    F.append(("client-sends-delProperty-whole-device", '<delProperty device="DEV0"/>', []))
+    F.append(("client-sends-delProperty-other-device", '<delProperty device="DEV1"/>', []))
+    F.append(("client-sends-message-no-device", '<message message="hi"/>', []))
+    F.append(("client-sends-defBLOBVector", '<defBLOBVector device="DEV0" name="TGT" state="Ok" perm="rw"><defBLOB name="A"/></defBLOBVector>', []))
+    F.append(("client-sends-setBLOBVector", '<setBLOBVector device="DEV0" name="TGT" state="Ok"><oneBLOB name="A" size="3" format=".x">QUJD</oneBLOB></setBLOBVector>', []))
     F.append(("client-sends-pingRequest", '<pingRequest uid="7"/>', []))
     F.append(("client-sends-message", '<message device="DEV0" message="hi"/>', []))
     F.append(("client-sends-pingReply", '<pingReply uid="7"/>', []))
